@@ -83,7 +83,9 @@ ObservationAllowed(exp, ok, odcidSame) ==
 
 (* ---------------------------------------------------------- stateless reset *)
 \* Observations <<key, cid, token>> (identities of byte strings).  The token must be a
-\* function of (key, cid) and differ for different connection IDs and keys.
+\* function of (key, cid) -- whatever calls came before, whichever generator with that key
+\* produced it and whichever buffer carried the connection ID -- and differ for different
+\* connection IDs and keys.
 ResetFunction(obs)  == \A x, y \in obs : (x[1] = y[1] /\ x[2] = y[2]) => x[3] = y[3]
 ResetDistinct(obs)  == \A x, y \in obs : x[3] = y[3] => (x[1] = y[1] /\ x[2] = y[2])
 =============================================================================
